@@ -409,28 +409,38 @@ func mutateValid(f *form.Form, flipLocks bool, force string) mutation {
 
 // mutateInvalid plants values outside the options / formats (correspondence only).
 func mutateInvalid(f *form.Form) {
-	bad := func() string {
-		switch r.Rand.Intn(4) {
+	bad := func(opts []string) string {
+		switch r.Rand.Intn(9) {
 		case 0:
 			return "1"
 		case 1:
 			return "nope"
 		case 2:
 			return " " + word(1, 4)
+		case 3:
+			return fmt.Sprint(len(opts)) // first index out of range
+		case 4:
+			return fmt.Sprint(len(opts) - 1)
+		case 5:
+			return "-1"
+		case 6:
+			return "+1"
+		case 7:
+			return "00"
 		}
 		return "7"
 	}
 	for _, t := range f.RadioButtonGroups {
 		if r.Rand.Intn(2) == 0 {
-			t.Value = bad()
-			if r.Rand.Intn(2) == 0 {
+			t.Value = bad(t.Options)
+			if r.Rand.Intn(3) == 0 {
 				t.Options = nil
 			}
 		}
 	}
 	for _, t := range f.ComboBoxes {
 		if r.Rand.Intn(2) == 0 {
-			t.Value = bad()
+			t.Value = bad(t.Options)
 			switch r.Rand.Intn(3) {
 			case 0:
 				t.Options = nil
@@ -441,8 +451,8 @@ func mutateInvalid(f *form.Form) {
 	}
 	for _, t := range f.ListBoxes {
 		if r.Rand.Intn(2) == 0 {
-			t.Values = append(append([]string(nil), t.Values...), bad())
-			if r.Rand.Intn(2) == 0 {
+			t.Values = append(append([]string(nil), t.Values...), bad(t.Options))
+			if r.Rand.Intn(3) == 0 {
 				t.Options = nil
 			}
 		}
@@ -816,8 +826,12 @@ func editedForms(pdf []byte) [][]byte {
 	edit(func(ctx *model.Context, d types.Dict, ft string, ff int) bool {
 		switch ft {
 		case "Ch":
+			if a := d.ArrayEntry("Opt"); a != nil {
+				// a blank option and one with outer blanks: parseOptions drops / trims them
+				d["Opt"] = append(append(types.Array{lit("  ")}, a...), lit(" zz "), lit(""))
+			}
 			if ff&ffMultiselect != 0 {
-				return false
+				return true
 			}
 			if sl := d.StringLiteralEntry("V"); sl != nil {
 				s, _ := types.StringLiteralToString(*sl)
